@@ -23,6 +23,14 @@ NA = {
 
 # id -> (engine, technique, level category, level text, level note, design ref)
 CLAIMED = {
+    "C10": (
+        "zonesim",
+        "deterministic simulation: seeded operation histories on all six zone configurations with an exception injected after every operation index, hook faults inside operations, and a reference zone model checked after every step",
+        "exploration",
+        "Seeded histories of transactions over every argument form, executed on plain/versioned/B-tree zones x relativize on/off and compared with a small reference model after every operation; for each history every abort index 0..n is enumerated (exception in the with-body), plus hook exceptions raised inside an operation, explicit rollback, legitimate operation errors followed by more operations; after each abort the zone must equal its pre-transaction snapshot (content, node identity, version list). Sampling over histories; exhaustive over abort indices within a history.",
+        "Trusted: the reference model simkit/refzone.py (written from the documentation), the op translators in checks/zonesim.py, dns.name/dns.rdata value semantics used as hashable keys.",
+        "DESIGN.md 3.1",
+    ),
     "C12": (
         "threadsim",
         "deterministic simulation: seeded baton-passing thread scheduler with shimmed threading.Lock/Event and line-level pre-emption; invariants per step + serial-equivalence history check",
